@@ -23,6 +23,10 @@ type InterfaceMethod struct {
 	Name    string
 	Inputs  []InterfaceType
 	Outputs []InterfaceType
+
+	// id is the go/types identity of the method ("pkgpath.name" for an unexported method, the
+	// name itself for an exported one); empty for hand-built models, which are matched by Name.
+	id string
 }
 
 // InterfaceType
@@ -134,6 +138,7 @@ func extractMethodsFromInterface(iface *types.Interface) []InterfaceMethod {
 			Name:    method.Name(),
 			Inputs:  extractTypesFromTuple(sig.Params(), sig.Variadic()),
 			Outputs: extractTypesFromTuple(sig.Results(), false),
+			id:      method.Id(),
 		})
 	}
 
